@@ -388,3 +388,28 @@ def lemma_peek_is_pure(model: Model, run: Run) -> None:
                              f"ASN1Reader.{name} does not advance the reader but writes {sorted(ws)}: whatever it remembers is not reset by the methods that advance "
                              "and can describe a value that has already been consumed", model.loc(fi.module, fi.node)))
     run.floor("non-advancing reader methods", n, 2)
+
+
+def receive_anchor(model: Model):
+    """LDAPSession.receive as the checks anchored on it need it: the method that itself sets up the reader over the incoming
+    bytes (directly or through a module-level helper).  When receive has become a thin wrapper around another method of the
+    class (a template method with hooks) the path rules written for it do not describe the code any more: that is an analysis
+    error of the check, not a finding about the library."""
+    fi = model.find_method("sansldap._session.LDAPSession", "receive")
+    if fi is None:
+        raise AnalysisError("LDAPSession.receive not found")
+
+    def builds_reader(f, depth=0) -> bool:
+        for c in walk_no_nested(f.node):
+            if isinstance(c, ast.Call) and isinstance(c.func, (ast.Name, ast.Attribute)):
+                if model.resolve_name(f.module, norm(c.func)) == READER:
+                    return True
+                if isinstance(c.func, ast.Name) and depth < 2:
+                    q = model.resolve_name(f.module, c.func.id)
+                    g = model.functions.get(q) if q else None
+                    if g is not None and g.cls is None and not isinstance(g.node, ast.Lambda) and builds_reader(g, depth + 1):
+                        return True
+        return False
+    if not builds_reader(fi):
+        raise AnalysisError("LDAPSession.receive does not set up the reader itself (it delegates its whole body to another method): the rules anchored on receive do not apply")
+    return fi
